@@ -95,7 +95,8 @@ P_FailClosed(c) ==
      /\ (NoRoom(c) \/ (c.allocFailed /\ c.fn = "crypt_ra") \/ IsTok(c.post.out))
      /\ c.err1 \in {EINVAL, ERANGE, ENOMEM}
      /\ (c.fn \in {"crypt_rn", "crypt_ra"} => c.ret = RNull)
-     /\ (c.fn \in {"crypt_r", "crypt"} => c.ret = ROut)
+     \* crypt/crypt_r return the token itself when built with failure tokens, NULL otherwise
+     /\ (c.fn \in {"crypt_r", "crypt"} => c.ret = IF c.ft THEN ROut ELSE RNull)
 \* C05: never the hash of an earlier call (unless told there is no room to write anything)
 P_NoStale(c) == (MustFail(c) /\ ~NoRoom(c) /\ ~(c.allocFailed /\ c.fn = "crypt_ra")) => ~IsHash(c.post.out)
 \* C05: the token is the documented one for the size and differs from the setting
@@ -120,8 +121,8 @@ Judge(c) == {n \in AllP :
    ~ CASE n = "FailClosed" -> P_FailClosed(c) [] n = "NoStale" -> P_NoStale(c) [] n = "Token" -> P_Token(c)
        [] n = "ShortSizes" -> P_ShortSizes(c) [] n = "Wiped" -> P_Wiped(c) [] n = "Result" -> P_Result(c)
        [] n = "Grow" -> P_Grow(c)}
-Call(fn, oc, sz, pre, post, e0, e1, r, grew, ef, af) ==
+Call(fn, oc, sz, pre, post, e0, e1, r, grew, ef, af, ft) ==
   [fn |-> fn, oc |-> oc, sz |-> sz, pre |-> pre, post |-> post, err0 |-> e0, err1 |-> e1, ret |-> r,
-   grew |-> grew, erasedFirst |-> ef, allocFailed |-> af]
+   grew |-> grew, erasedFirst |-> ef, allocFailed |-> af, ft |-> ft]
 
 =============================================================================
